@@ -5,6 +5,7 @@ import (
 	"net/http"
 	"net/url"
 	"runtime"
+	"runtime/debug"
 	"sort"
 	"strings"
 
@@ -14,7 +15,7 @@ import (
 // rp: "registration program + requests" executor shared by C04, C05, C09, C10, C12.
 //
 // case : (rp (opt ...) (stmt ...) ((id (op ...)) ...) (req ...))
-// opt  : (na) | (strict) | (onpanic (op ...)) | (onerror (op ...))
+// opt  : (na) | (strict) | (onpanic (op ...)) | (onerror (op ...)) | (twin)
 // stmt : (use id ...) | (group 'prefix (id ...) (stmt ...)) | (route ('M ...) 'path main (var ...) (later ...) 'name)
 //        | (nf id ...) | (nal id ...)
 // op   : (ev n) (next) (abort) (abortthen) (abs code) (isab) (panic n) (w <wop>) (sd 'k v) (ae n) (sp 'k 'v) (rr) (rq) (snap)
@@ -24,9 +25,14 @@ import (
 type verifPanic struct{ n int }
 
 type rpRecorder struct {
-	trace []Sx
-	req   *http.Request
+	trace  []Sx
+	req    *http.Request
+	ctxPtr string
 }
+
+// rpLastReuse: how many requests of the last executed case were served with a *Context already used by an
+// earlier request of that case (reported in the evidence of C10)
+var rpLastReuse int
 
 type wrapW struct{ http.ResponseWriter }
 
@@ -121,6 +127,9 @@ func rpRunOp(c *rux.Context, op Sx) {
 
 func rpHandler(ops []Sx) rux.HandlerFunc {
 	return func(c *rux.Context) {
+		if rpCur.ctxPtr == "" {
+			rpCur.ctxPtr = fmt.Sprintf("%p", c)
+		}
 		for _, op := range ops {
 			rpRunOp(c, op)
 		}
@@ -182,57 +191,60 @@ func rpExec(c Sx) (out Sx) {
 	if len(xs) != 5 {
 		panic("rp: bad case")
 	}
-	var opts []func(*rux.Router)
-	var onPanic, onError []Sx
-	hasPanic, hasError := false, false
+	twin := false
 	for _, o := range xs[1].Lst() {
-		switch o.Head() {
-		case "na":
-			opts = append(opts, rux.HandleMethodNotAllowed)
-		case "strict":
-			opts = append(opts, rux.StrictLastSlash)
-		case "onpanic":
-			onPanic, hasPanic = o.List[1].Lst(), true
-		case "onerror":
-			onError, hasError = o.List[1].Lst(), true
-		default:
-			panic("rp: bad option " + o.String())
+		if o.Head() == "twin" {
+			twin = true
 		}
 	}
-	env := &rpEnv{r: rux.New(opts...), hs: map[int]rux.HandlerFunc{}}
-	if hasPanic {
-		env.r.OnPanic = rpHandler(onPanic)
+	if twin {
+		// keep pooled contexts alive so that reuse really happens
+		defer debug.SetGCPercent(debug.SetGCPercent(-1))
 	}
-	if hasError {
-		env.r.OnError = rpHandler(onError)
-	}
-	for _, h := range xs[3].Lst() {
-		env.hs[h.List[0].Int()] = rpHandler(h.List[1].Lst())
-	}
-	regPanicked := func() (p bool) {
-		defer func() {
-			if e := recover(); e != nil {
-				if s, ok := e.(string); ok && strings.HasPrefix(s, "rp:") {
-					panic(e)
-				}
-				p = true
+	build := func() (*rpEnv, bool) {
+		var opts []func(*rux.Router)
+		var onPanic, onError []Sx
+		hasPanic, hasError := false, false
+		for _, o := range xs[1].Lst() {
+			switch o.Head() {
+			case "na":
+				opts = append(opts, rux.HandleMethodNotAllowed)
+			case "strict":
+				opts = append(opts, rux.StrictLastSlash)
+			case "onpanic":
+				onPanic, hasPanic = o.List[1].Lst(), true
+			case "onerror":
+				onError, hasError = o.List[1].Lst(), true
+			case "twin":
+			default:
+				panic("rp: bad option " + o.String())
 			}
+		}
+		env := &rpEnv{r: rux.New(opts...), hs: map[int]rux.HandlerFunc{}}
+		if hasPanic {
+			env.r.OnPanic = rpHandler(onPanic)
+		}
+		if hasError {
+			env.r.OnError = rpHandler(onError)
+		}
+		for _, h := range xs[3].Lst() {
+			env.hs[h.List[0].Int()] = rpHandler(h.List[1].Lst())
+		}
+		regPanicked := func() (p bool) {
+			defer func() {
+				if e := recover(); e != nil {
+					if s, ok := e.(string); ok && strings.HasPrefix(s, "rp:") {
+						panic(e)
+					}
+					p = true
+				}
+			}()
+			env.stmts(xs[2].Lst())
+			return false
 		}()
-		env.stmts(xs[2].Lst())
-		return false
-	}()
-	if regPanicked {
-		return L(A("regpanic"))
+		return env, regPanicked
 	}
-	reg := []Sx{A("reg")}
-	for _, rt := range env.routes {
-		reg = append(reg, L(A("route"), S(rt.Path()), I(len(rt.Handlers()))))
-	}
-	pfx, ng, ngl := env.r.VerifGroupState()
-	reg = append(reg, L(A("scope"), S(pfx), I(ng), I(ngl)))
-
-	reqs := []Sx{A("reqs")}
-	for _, rq := range xs[4].Lst() {
+	serve := func(env *rpEnv, rq Sx) (Sx, string) {
 		var script []int
 		for _, s := range rq.List[2].Lst() {
 			script = append(script, s.Int())
@@ -253,7 +265,41 @@ func rpExec(c Sx) (out Sx) {
 			env.r.ServeHTTP(w, req)
 			return
 		}()
-		reqs = append(reqs, L(A("req"), LS(append([]Sx{A("trace")}, rpCur.trace...)), LS(append([]Sx{A("log")}, w.log...)), L(A("esc"), esc)))
+		return L(A("req"), LS(append([]Sx{A("trace")}, rpCur.trace...)), LS(append([]Sx{A("log")}, w.log...)), L(A("esc"), esc)), rpCur.ctxPtr
 	}
-	return L(LS(reg), LS(reqs))
+	env, regPanicked := build()
+	if regPanicked {
+		return L(A("regpanic"))
+	}
+	reg := []Sx{A("reg")}
+	for _, rt := range env.routes {
+		reg = append(reg, L(A("route"), S(rt.Path()), I(len(rt.Handlers()))))
+	}
+	pfx, ng, ngl := env.r.VerifGroupState()
+	reg = append(reg, L(A("scope"), S(pfx), I(ng), I(ngl)))
+
+	reqs := []Sx{A("reqs")}
+	seen := map[string]bool{}
+	rpLastReuse = 0
+	for _, rq := range xs[4].Lst() {
+		o, ptr := serve(env, rq)
+		reqs = append(reqs, o)
+		if ptr != "" {
+			if seen[ptr] {
+				rpLastReuse++
+			}
+			seen[ptr] = true
+		}
+	}
+	if !twin {
+		return L(LS(reg), LS(reqs))
+	}
+	// twin oracle: the same request served as the FIRST request of a freshly built identical router
+	fresh := []Sx{A("fresh")}
+	for _, rq := range xs[4].Lst() {
+		env2, _ := build()
+		o, _ := serve(env2, rq)
+		fresh = append(fresh, o)
+	}
+	return L(LS(reg), LS(reqs), LS(fresh))
 }
